@@ -6,7 +6,7 @@ T-gen : translator/gen_conf_kernels.py regenerates coq/Gen/ConfKernels.v from th
         Ambiguity.normalize_with_percentile, statement by statement into the numpy semantics of coq/Lib/NpVec.v, fail closed (and checks the call sites in the three
         confidence_prediction methods: orientation of the volume for max measures, sampled ambiguity handed to
         compute_risk, type_factor); Proofs/ConfGenP.v re-proves at every run that the generated kernels equal
-        Model/Confidence.v on every pixel curve and every volume with two distinct finite costs, and Props/C12.v
+        Model/Confidence.v on every pixel curve and on every volume (degenerate ones included), and Props/C12.v
         restates the headline theorems on the generated definitions (C12_gen_*).
 T-corr: the extracted model (Model/Confidence.v: ambiguity, percentile normalisation, risk, interval
         bounds, regularisation, std band (variance, NaN border), band bookkeeping, indicator naming, WTA; and
@@ -94,7 +94,9 @@ GEN_OBLIGATIONS = [
     "succeeds for nb_disps >= 1 and is the eta samples tiled nb_disps times",
     "C12_gen_amb_kernel_eq / C12_gen_risk_kernel_eq / C12_gen_bounds_kernel_eq: the whole generated kernels (prelude "
     "np.nanmin / np.nanmax of the volume, cv.shape, two_dim_etas, initial value of the result arrays, the pixel body at "
-    "every (row, col)) = amb_map / risk_map / bounds_map of the model for every volume with two distinct finite costs",
+    "every (row, col)) = amb_map / risk_map / bounds_map of the model for EVERY volume with >= 1 pixel and >= 1 disparity: "
+    "two distinct finite costs (the property's domain) or degenerate (no finite cost / all finite costs equal: the kernels' "
+    "0/0 = NaN branch, maximum ambiguity, NaN risk and bounds)",
     "C12_gen_ambiguity_def, C12_gen_risk_order, C12_gen_risk_finite, C12_gen_bounds_bracket_wta: the headline theorems "
     "restated on the generated kernels; C12_gen_argsort_contract_satisfiable; Example C12_example_gen (vm_compute of "
     "the generated kernels on a curve with a NaN hole and a tie)",
